@@ -71,6 +71,26 @@ func c13Failing(shared *openfgav1.AuthorizationModel) *openfgav1.AuthorizationMo
 	return f
 }
 
+// Live results: during the history search every call that returns an object (a model, a graph) registers how to render it
+// again; after the later calls of the history each such object must still render as it did when it was returned (two results
+// alive at once do not share state, and a later call does not reach back into an earlier result).
+type c13LiveResult struct {
+	first  string
+	render func() string
+}
+
+var (
+	c13LiveOn bool
+	c13Live   []c13LiveResult
+)
+
+func c13Keep(first string, render func() string) string {
+	if c13LiveOn {
+		c13Live = append(c13Live, c13LiveResult{first, render})
+	}
+	return first
+}
+
 // c13Op is one public call with its observation rendered as a string.
 type c13Op struct {
 	Name string
@@ -93,7 +113,8 @@ func c13Ops(shared, graphM *openfgav1.AuthorizationModel) []c13Op {
 			if err != nil {
 				return errStr(err)
 			}
-			return ref.Dump(m, ref.DumpOpts{Strict: true, RawExpr: true})
+			render := func() string { return ref.Dump(m, ref.DumpOpts{Strict: true, RawExpr: true}) }
+			return c13Keep(render(), render)
 		}}
 	}
 	ops := []c13Op{parse(0), parse(1), parse(3), parse(5),
@@ -107,7 +128,8 @@ func c13Ops(shared, graphM *openfgav1.AuthorizationModel) []c13Op {
 				ks = append(ks, k)
 			}
 			sort.Strings(ks)
-			return ref.Dump(m, ref.DumpOpts{Strict: true, RawExpr: true}) + fmt.Sprint(ks)
+			render := func() string { return ref.Dump(m, ref.DumpOpts{Strict: true, RawExpr: true}) + fmt.Sprint(ks) }
+			return c13Keep(render(), render)
 		}},
 		{"dsl-to-json-doc1", func() string { s, err := transformer.TransformDSLToJSON(c13Docs[1]); return s + errStr(err) }},
 		{"print-shared-modular", func() string {
@@ -129,7 +151,8 @@ func c13Ops(shared, graphM *openfgav1.AuthorizationModel) []c13Op {
 			if err != nil {
 				return errStr(err)
 			}
-			return ref.Dump(m, laxDump)
+			render := func() string { return ref.Dump(m, laxDump) }
+			return c13Keep(render(), render)
 		}},
 		{"plain-graph-shared", func() string {
 			g, err := graph.NewAuthorizationModelGraph(graphM)
@@ -137,10 +160,17 @@ func c13Ops(shared, graphM *openfgav1.AuthorizationModel) []c13Op {
 				return errStr(err)
 			}
 			r, _ := g.Reversed()
-			p, _ := g.PathExists("user", "doc#viewer")
-			return g.GetDOT() + r.GetDOT() + fmt.Sprintf("%+v %v", g.GetCycles(), p)
+			render := func() string {
+				p, _ := g.PathExists("user", "doc#viewer")
+				return g.GetDOT() + r.GetDOT() + fmt.Sprintf("%+v %v", g.GetCycles(), p)
+			}
+			return c13Keep(render(), render)
 		}},
-		{"weighted-graph-shared", func() string { return wgObsString(wgBuild(graphM)) }},
+		{"weighted-graph-shared", func() string {
+			o := wgBuild(graphM)
+			render := func() string { return wgObsString(o) }
+			return c13Keep(render(), render)
+		}},
 		{"validators+utils", func() string {
 			var sb strings.Builder
 			for _, s := range []string{"doc:1", "group:eng#member", "user:*", "bad id", "doc:1#viewer"} {
@@ -315,14 +345,16 @@ func c13History(ctx *core.Ctx) {
 			if err != nil {
 				return errStr(err)
 			}
-			return ref.Dump(m, ref.DumpOpts{Strict: true, RawExpr: true})
+			render := func() string { return ref.Dump(m, ref.DumpOpts{Strict: true, RawExpr: true}) }
+			return c13Keep(render(), render)
 		}})
 		alphabet = append(alphabet, op{fmt.Sprintf("modular-parse-doc%d", i), func() string {
 			m, _, err := transformer.TransformModularDSLToProto(d)
 			if err != nil {
 				return errStr(err)
 			}
-			return ref.Dump(m, ref.DumpOpts{Strict: true, RawExpr: true})
+			render := func() string { return ref.Dump(m, ref.DumpOpts{Strict: true, RawExpr: true}) }
+			return c13Keep(render(), render)
 		}})
 	}
 	for _, o := range c13Ops(shared, graphM)[6:] {
@@ -359,7 +391,8 @@ func c13History(ctx *core.Ctx) {
 					o.g, o.verdict = nil, "rejected"
 				}
 			}()
-			return wgObsString(o)
+			render := func() string { return wgObsString(o) }
+			return c13Keep(render(), render)
 		}})
 	}
 	// the state key: parser caches plus what the long-lived builder has been given (over-fine: the builder is opaque)
@@ -418,11 +451,29 @@ func c13History(ctx *core.Ctx) {
 				}
 				// successor = reset + replay of the history + one more call
 				resetParserCaches()
+				c13Live, c13LiveOn = c13Live[:0], mine
 				for _, h := range nd.hist {
 					alphabet[h].f()
 				}
 				out := alphabet[i].f()
+				c13LiveOn = false
 				snap := stateKey(nd.hist, i)
+				if mine {
+					// every object returned along the history still renders as it did when it was returned
+					for li, lr := range c13Live {
+						if now := lr.render(); now != lr.first {
+							hist := append(append([]int{}, nd.hist...), i)
+							var names []string
+							for _, h := range hist {
+								names = append(names, alphabet[h].name)
+							}
+							ctx.Violation("earlier-result-changed", fmt.Sprintf("in the history %v the object returned by call number %d (among those returning an object) reads differently after the later calls", names, li+1),
+								c13Case{Sub: "history", History: hist, Ops: names}, lr.first, now)
+							return
+						}
+						ctx.Flag("c13:live-results")
+					}
+				}
 				if mine {
 					ctx.Trans(1)
 					ctx.State(snap)
@@ -727,7 +778,7 @@ func init() {
 	core.Register(&core.Check{
 		ID: "C13",
 		Rule: "(1) inputs untouched: every full model of the generator families, the modular models and every 97th graph model, with the type definitions reversed, through printer (both options), both graph builders and the utils: strict snapshot before = after; module file slices through the merger. " +
-			"(2) history independence, explicit-state search: state = contents of the process-global ANTLR caches (serialised DFAs), transitions = the real parse entry points on 8 documents (valid, invalid, modular) plus printer (also on two variants of the shared model that fail part-way), merger, both graph builders and validators, plus one weighted-graph builder value that lives as long as the process, given three models whose tuple-to-usersets resolve against different types (its inputs so far are part of the state key); successor = cache reset + replay of the history + one call; breadth first to depth 3 (quick) / 4 (thorough), no state merging below depth 3; invariant on every transition: output equals the cold output. " +
+			"(2) history independence, explicit-state search: state = contents of the process-global ANTLR caches (serialised DFAs), transitions = the real parse entry points on 8 documents (valid, invalid, modular) plus printer (also on two variants of the shared model that fail part-way), merger, both graph builders and validators, plus one weighted-graph builder value that lives as long as the process, given three models whose tuple-to-usersets resolve against different types (its inputs so far are part of the state key); successor = cache reset + replay of the history + one call; breadth first to depth 3 (quick) / 4 (thorough), no state merging below depth 3; invariant on every transition: output equals the cold output, and every object returned earlier in the history (models, graphs) still renders as it did when it was returned. " +
 			"(3) interleavings: pairs of 13 calls (quick: every call with itself and with three hub calls; thorough: every pair) (parses, modular parse, DSL->JSON, printing shared models, a print that fails part-way, merge, both graph builders on a shared model, validators) as two controlled threads with caches reset, scheduling points at every statement of the repository's packages and every antlr lock operation, preemption bound 1 (thorough: bound 2 on short pairs, three threads bound 1): each result equals the sequential result, shared inputs unchanged, no deadlock, no panic. " +
 			"(4) the same bodies free-running on real threads in a separate -race build: no report with a repository frame. states = cache states + schedule classes, non-trivial = distinct models / call pairs",
 		Assume: []string{
@@ -738,7 +789,7 @@ func init() {
 		Technique: "stateless exploration of thread interleavings under a preemption bound (controlled scheduler over injected scheduling points) + explicit-state BFS over parser-cache states + race-detector pass",
 		Run:       c13Run,
 		Finish: func(r *core.Result) error {
-			for _, f := range []string{"c13:inputs", "c13:history", "c13:interleavings", "c13:scheduling-points", "c13:race-pass"} {
+			for _, f := range []string{"c13:inputs", "c13:history", "c13:live-results", "c13:interleavings", "c13:scheduling-points", "c13:race-pass"} {
 				if !r.Flags[f] {
 					return fmt.Errorf("C13: guard %q never exercised", f)
 				}
